@@ -11,9 +11,11 @@
 EXTENDS FsPersist, TLC, Json
 
 CONSTANTS Prog, WriteAll, MaxDown, MaxHist,
+          MaxBad,        \* refused uploads per history
+          BadPersists,   \* FALSE: a refused upload never reaches persist_snapshot (design); TRUE: it does (as observed)
           O1, O2, O3, O4, O5, O6, O7, O8, O9, O10, O11, O12   \* the observed program, one step name per constant ("" = unused)
-VARIABLES hist, ip, ndown
-vars == <<dir, ddir, pend, vol, dur, up, busy, cur, nimp, mem, okG, allowed, fresh, hist, ip, ndown>>
+VARIABLES hist, ip, ndown, nbad
+vars == <<dir, ddir, pend, vol, dur, up, busy, cur, nimp, mem, okG, bad, allowed, fresh, hist, ip, ndown, nbad>>
 
 ProgFixed == <<"tmp_created", "tmp_written", "tmp_synced", "renamed", "marker_created", "marker_synced", "dir_synced">>
 ProgLegacy == <<"marker_removed", "tmp_created", "tmp_written", "tmp_synced", "renamed", "marker_created", "marker_synced">>
@@ -24,29 +26,36 @@ ProgNoDataSync == <<"tmp_created", "tmp_written", "renamed", "marker_created", "
 \* a TLC configuration file cannot hold a sequence: the observed program comes as twelve strings
 ProgObserved == SelectSeq(<<O1, O2, O3, O4, O5, O6, O7, O8, O9, O10, O11, O12>>, LAMBDA x : x # "")
 
-Init == FPInit /\ hist = <<>> /\ ip = 0 /\ ndown = 0
+Init == FPInit /\ hist = <<>> /\ ip = 0 /\ ndown = 0 /\ nbad = 0
 H(r) == hist' = Append(hist, r)
 
-Content == IF WriteAll THEN IdealContent ELSE LastOnlyContent
+Content == IF bad THEN BadContent ELSE IF WriteAll THEN IdealContent ELSE LastOnlyContent
+BadKinds == {"cut", "garbage"}
 
 Next ==
-    \/ Import(nimp + 1) /\ ip' = 1 /\ UNCHANGED ndown /\ H([op |-> "Import", k |-> nimp + 1])
+    \/ Import(nimp + 1) /\ ip' = 1 /\ UNCHANGED <<ndown, nbad>> /\ H([op |-> "Import", k |-> nimp + 1])
+    \* a refused upload, after at least one acknowledged import (k = 9: its content never reaches a graph)
+    \/ /\ nbad < MaxBad /\ nimp >= 1
+       /\ \E kind \in BadKinds :
+             /\ IF BadPersists /\ kind = "cut" THEN BadUpload(9) /\ ip' = 1 ELSE RejectDirect /\ ip' = 0
+             /\ H([op |-> "Reject", k |-> 9, kind |-> kind])
+       /\ nbad' = nbad + 1 /\ UNCHANGED ndown
     \/ /\ busy /\ ip <= Len(Prog)
-       /\ PStep(Prog[ip], Content) /\ ip' = ip + 1 /\ UNCHANGED ndown
+       /\ PStep(Prog[ip], Content) /\ ip' = ip + 1 /\ UNCHANGED <<ndown, nbad>>
        /\ H([op |-> "Step", point |-> Prog[ip]])
     \/ /\ busy /\ ip = Len(Prog) + 1
-       /\ Ack /\ ip' = 0 /\ UNCHANGED ndown /\ H([op |-> "Ack"])
+       /\ (IF bad THEN Refuse ELSE Ack) /\ ip' = 0 /\ UNCHANGED <<ndown, nbad>> /\ H([op |-> "Ack"])
     \/ /\ ndown < MaxDown
-       /\ Crash /\ ip' = 0 /\ ndown' = ndown + 1 /\ H([op |-> "Crash"])
+       /\ Crash /\ ip' = 0 /\ ndown' = ndown + 1 /\ UNCHANGED nbad /\ H([op |-> "Crash"])
     \/ /\ ndown < MaxDown /\ up
        /\ \E K \in SUBSET (1..Len(pend)), pick \in [Names -> DataChoices] :
              /\ PowerLoss(K, pick)
              /\ H([op |-> "PowerLoss", dir |-> Listing(dir', vol')])
-       /\ ip' = 0 /\ ndown' = ndown + 1
-    \/ Restart(PhysG) /\ UNCHANGED <<ip, ndown>> /\ H([op |-> "Restart"])
+       /\ ip' = 0 /\ ndown' = ndown + 1 /\ UNCHANGED nbad
+    \/ Restart(PhysG) /\ UNCHANGED <<ip, ndown, nbad>> /\ H([op |-> "Restart"])
 
 Spec == Init /\ [][Next]_vars
-View == <<dir, ddir, pend, vol, dur, up, busy, cur, nimp, mem, okG, allowed, fresh, ip, ndown>>
+View == <<dir, ddir, pend, vol, dur, up, busy, cur, nimp, mem, okG, bad, allowed, fresh, ip, ndown, nbad>>
 Bound == Len(hist) <= MaxHist
 \* one script per Restart transition (every way of going down, at every ip, restarted) and per Ack
 Emit == (hist'[Len(hist')].op \in {"Restart", "Ack"}) => PrintT(<<"SCRIPT", ToJson(hist')>>)
